@@ -108,6 +108,8 @@ def run_shard(spec, tier, seed, budget_s):
         while k < target and not sh.out_of_time():
             k += 1
             size = rng.choice(['small', 'medium', 'medium'] + (['large'] if tier == 'thorough' else []))
+            if k <= 2:
+                size = 'large'          # a few big documents in every tier (many tables, references, indexes)
             doc = gen.random_doc(rng, size, 'plain')
             for r in doc.refs:
                 r.api_inline = rng.random() < 0.4
